@@ -17,6 +17,11 @@
      declaration is what decides (no entity categories).
    * a requester about which nothing is known (the policy has no metadata store) is in no entity
      category: only what the configured categories release to everybody (the "" key) passes.
+   * "the requester's declared required/optional attributes": what a RequestedAttribute declares is
+     the attribute identified by its Name + NameFormat (the local name the attribute maps derive
+     from them); its FriendlyName is a label without meaning (SAML core 2.7.3.1) and stands in only
+     when the maps do not know the Name.  The same reading holds where the declaration acts through
+     ONLY_REQUIRED entity categories (required_names).
    * "a required attribute cannot be supplied": no identity attribute is designated by it, or it
      lists values and no designated identity attribute holds any of them.
    * an error (MissingValue or any other exception) releases nothing and always satisfies the
@@ -109,10 +114,18 @@ Definition fail_flag (x : finput) : bool :=
 
 Definition opt_list {A : Type} (o : option A) : list A := match o with Some a => [a] | None => [] end.
 
-(* an identity attribute k is designated by a RequestedAttribute: its mapped local name, its
-   FriendlyName or its Name is k, compared without regard to case *)
+(* What a RequestedAttribute DECLARES is the attribute identified by its Name + NameFormat: the local
+   name the attribute maps derive from them (datum ra_loc_l).  The FriendlyName is a human-readable
+   label without meaning (SAML core 2.7.3.1): it stands in for the local name ONLY when the maps do not
+   know the Name.  An identity attribute k is designated by a RequestedAttribute when that name - or
+   the Name itself (identities keyed by wire names) - is k, compared without regard to case.  A
+   FriendlyName that disagrees with what Name + NameFormat stand for designates nothing. *)
+Definition resolved (d : reqattr) : option string := tr (ra_loc_l d).
 Definition designators (d : reqattr) : list string :=
-  opt_list (ra_loc_l d) ++ opt_list (ra_friendly d) ++ [ra_name d].
+  match resolved d with
+  | Some l => [l; ra_name d]
+  | None => opt_list (ra_friendly d) ++ [ra_name d]
+  end.
 Definition designates (d : reqattr) (k : string) : Prop :=
   exists n, In n (designators d) /\ lower n = lower k.
 Definition designates_b (d : reqattr) (k : string) : bool :=
@@ -162,12 +175,14 @@ Section Spec.
     end.
   Definition key_always (k : eckey) : bool := match k with KS s => is_empty s | KT _ => false end.
 
-  (* lower-cased local names of the required attributes *)
-  Definition required_names (x : finput) : list string :=
-    flat_map (fun d => match tr (ra_friendly d) with
-                       | Some f => [lower f]
-                       | None => match ra_loc_r d with Some l => [lower l] | None => [] end
-                       end) (f_req x).
+  (* lower-cased local names of the required attributes: what Name + NameFormat stand for, the
+     FriendlyName only when the attribute maps do not know the Name *)
+  Definition required_name (d : reqattr) : list string :=
+    match resolved d with
+    | Some l => [lower l]
+    | None => match tr (ra_friendly d) with Some f => [lower f] | None => [] end
+    end.
+  Definition required_names (x : finput) : list string := flat_map required_name (f_req x).
 
   (* category entry e lets the (lower-cased) attribute name n out *)
   Definition grants (x : finput) (e : ecentry) (n : string) : Prop :=
@@ -311,12 +326,26 @@ Section Spec.
   Definition class2 (x : input) : bool :=
     negb (is_nil (the_entries (flat x))) && negb (f_mds (flat x)).
 
+  (* class 3 (finding C10-F5, OPEN): an ONLY_REQUIRED entity category is configured and the requester
+     REQUIRES an attribute whose FriendlyName, read BEFORE Name + NameFormat (label first, as
+     Policy.get_entity_categories does), names another attribute than the one Name + NameFormat stand for *)
+  Definition label_first_name (d : reqattr) : list string :=
+    match tr (ra_friendly d) with
+    | Some f => [lower f]
+    | None => match ra_loc_r d with Some l => [lower l] | None => [] end
+    end.
+  Definition label_first_names (x : finput) : list string := flat_map label_first_name (f_req x).
+  Definition class3 (x : input) : bool :=
+    existsb ec_only_required (the_entries (flat x))
+    && negb (list_eqb String.eqb (label_first_names (flat x)) (required_names (flat x))).
+
   (* not a finding but a stated input assumption: with entity categories in force the identity has
      no attribute whose name is the empty string (the code uses "" as a marker in that dict) *)
   Definition wf (x : input) : bool :=
     is_nil (the_entries (flat x)) || negb (mem "" (keys (i_ident x))).
 
-  Definition guard (x : input) : bool := wf x.
+  (* the input assumption, and outside the class of the open finding C10-F5 *)
+  Definition guard (x : input) : bool := wf x && negb (class3 x).
 
   (* ---- the life of one Policy object: what is released by a call is judged against the user, the
      requester AS DESCRIBED AT THE TIME OF THAT CALL (declared required/optional attributes, entity
